@@ -151,6 +151,10 @@ func checks() []Check {
 			Rule:        "stateless model checking of the real engine built with -race: the scheduler's hand-offs are raw futex operations in //go:norace code, hence invisible to the race detector, which therefore judges every explored schedule by gnet's own happens-before relation; every schedule within the delay bound of user goroutines calling the documented concurrency-safe API against accept/traffic/close/tick/start/stop; a confinement monitor checks one thread per loop and no overlapping callbacks; an execution is one evaluation",
 			Assumptions: append([]string{"races are found between accesses executed in an explored schedule (happens-before based, independent of timing); hardware weak-memory effects beyond the Go memory model are out of reach", "the harness publishes objects from callbacks to user goroutines through a real atomic.Value, as a correct application must", "self-test: MC_C05_CONTROL=1 adds a scenario calling the non-concurrency-safe SetContext from another goroutine, which must be reported"}, commonAssumptions...),
 			Units: []Unit{{Name: "race", Pkg: ".", Tags: "verifmc,mcfutex", Race: true, Test: "TestMC_C05", Instrument: true, Shards: 16, BudgetQuick: 150, BudgetThorough: 1500, Env: []string{"GOMAXPROCS=2"}},
+				// the same scenarios against the build variants: the poll_opt poller (its own Trigger/Polling) and
+				// the gc_opt connection registry (its own counters, read by CountConnections)
+				{Name: "race-poll_opt", Pkg: ".", Tags: "verifmc,mcfutex,poll_opt", Race: true, Test: "TestMC_C05", Instrument: true, Shards: 8, BudgetQuick: 100, BudgetThorough: 1500, Env: []string{"GOMAXPROCS=2"}},
+				{Name: "race-gc_opt", Pkg: ".", Tags: "verifmc,mcfutex,gc_opt", Race: true, Test: "TestMC_C05", Instrument: true, Shards: 8, BudgetQuick: 100, BudgetThorough: 1500, Env: []string{"GOMAXPROCS=2"}},
 				{Name: "confine", Pkg: ".", Tags: "verifmc", Test: "TestMC_C05Confine", Instrument: true, Shards: 8, BudgetQuick: 100, BudgetThorough: 900, Env: []string{"GOMAXPROCS=2"}}},
 		},
 		{
